@@ -309,8 +309,49 @@ def vec_representations(v):
     yield "list-of-np", [np.int64(x) for x in v]
 
 
+def c10_entry_points(acc, rng):
+    """The package-level constructors (nasim.make_benchmark / nasim.generate)
+    hand out environments that honour the same contract."""
+    import nasim
+    modes = dict(fully_obs=rng.random() < 0.5, flat_actions=rng.random() < 0.5,
+                 flat_obs=rng.random() < 0.5)
+    if rng.random() < 0.5:
+        name = rng.choice(corpus.SHIPPED + corpus.GENERATED[:5])
+        env = nasim.make_benchmark(name, seed=rng.randrange(100), **modes)
+        what = f"make_benchmark({name})"
+    else:
+        p = dict(num_hosts=rng.choice([3, 5, 8, 12]),
+                 num_services=rng.randint(1, 5), num_os=rng.randint(1, 3),
+                 num_processes=rng.randint(1, 3), seed=rng.randrange(1000),
+                 r_sensitive=rng.choice([10, 7.5]),
+                 base_host_value=rng.choice([1, -2.5]))
+        env = nasim.generate(**p, **modes)
+        what = f"generate({p})"
+    acc.evaluations += 1
+    dims = env.scenario.get_observation_dims()
+    want = (dims[0] * dims[1],) if modes["flat_obs"] else tuple(dims)
+    o, info = env.reset()
+    bad = []
+    for _ in range(40):
+        if o.dtype != np.float32 or o.shape != want or \
+                not env.observation_space.contains(o):
+            bad.append(f"dtype={o.dtype} shape={o.shape} in_space="
+                       f"{env.observation_space.contains(o)}")
+            break
+        a = env.action_space.sample()
+        o, r, term, trunc, info = env.step(a)
+        if term or trunc:
+            o, info = env.reset()
+    if bad:
+        acc.violation("observation_contract", "observation_contract:entry",
+                      {"constructor": what, "modes": modes, "bad": bad},
+                      {"kind": "api", "what": what, "modes": modes})
+    acc.count("entry_point_environments")
+
+
 def c10_case(acc, sp, kw, rng, tier):
     z = SIZES[tier]
+    c10_entry_points(acc, rng)
     scenario = None
     for fully, flat_a, flat_o in MODES:
         modes = dict(fully_obs=fully, flat_actions=flat_a, flat_obs=flat_o)
